@@ -114,6 +114,50 @@ impl<'a> VisitorCopy for Replay<'a> {
     }
 }
 
+/// History independence: every ordered pair of calls (function x argument regime) is executed on a
+/// FRESH thread (so that thread-local and lazily initialised state starts empty); the bits of the
+/// second call must not depend on which call came first.
+fn history_independence(st: &mut Stats) -> usize {
+    use num_dual::Dual2_64;
+    let calls: Vec<(Op, f64)> = [Op::BesselJ0, Op::BesselJ1, Op::BesselJ2].iter().flat_map(|op| [2e-6, 0.5, 3.0, 7.0].iter().map(move |x| (*op, *x))).collect();
+    let eval = |(op, x): (Op, f64)| -> Vec<u64> {
+        let r = apply_bessel(op, Dual2_64::new(x, 0.75, -1.25));
+        vec![r.re.to_bits(), r.v1.to_bits(), r.v2.to_bits()]
+    };
+    let mut pairs = 0;
+    for &c2 in &calls {
+        let mut first: Option<(Vec<u64>, (Op, f64))> = None;
+        for &c1 in &calls {
+            let r = std::thread::spawn(move || {
+                let _ = eval(c1);
+                eval(c2)
+            })
+            .join();
+            let r = match r {
+                Ok(r) => r,
+                Err(_) => continue,
+            };
+            pairs += 1;
+            st.evaluations += 2;
+            st.transitions += 2;
+            match &first {
+                None => first = Some((r, c1)),
+                Some((r0, c0)) => {
+                    if *r0 != r {
+                        st.violation(Violation {
+                            sig: format!("history {} Dual2<f64>", c2.0.name()),
+                            case: json!({"call": {"op": c2.0.name(), "x": c2.1}, "after_a": {"op": c0.0.name(), "x": c0.1}, "after_b": {"op": c1.0.name(), "x": c1.1}}),
+                            what: format!("{}({}) gives different bits on a fresh thread after {}({}) than after {}({}): the result depends on the previous call", c2.0.name(), c2.1, c0.0.name(), c0.1, c1.0.name(), c1.1),
+                        });
+                        break;
+                    }
+                }
+            }
+        }
+    }
+    pairs
+}
+
 fn main() {
     quiet_panics();
     let cli = cli();
@@ -140,17 +184,18 @@ fn main() {
     let tier = if cli.mode == Mode::Quick { Tier::Quick } else { Tier::Thorough };
     copy64_types(tier, &mut e);
     let axes = std::mem::take(&mut e.axes);
+    let hist_pairs = history_independence(&mut stats);
     let rep = Report {
         property: PROP,
         mode: cli.mode,
         seed: cli.seed,
         start,
-        rule: "bessel_j0/j1/j2 x f64 Copy dual types (scalar, static vector, thorough: nested up to 4th order) x the lattice k/64 (quick k/16) in [-60,60] plus 0, denormal, 1e-300, 1e-8, 1e-5, 1, 5 with float neighbours, 1e-3, 0.03, 0.9, 0.99, 0.999, 1.001, both signs x {2 generic assignments of pairwise distinct non-unit parts, unit seeding}; plus bitwise parity f(-x) vs f(x) for every point".into(),
+        rule: "bessel_j0/j1/j2 x f64 Copy dual types (scalar, static vector, thorough: nested up to 4th order) x the lattice k/64 (quick k/16) in [-60,60] plus 0, denormal, 1e-300, 1e-8, 1e-5, 1, 5 with float neighbours, 1e-3, 0.03, 0.9, 0.99, 0.999, 1.001, both signs x {2 generic assignments of pairwise distinct non-unit parts, unit seeding}; plus bitwise parity f(-x) vs f(x) for every point; plus history independence: every ordered pair of calls from {J0, J1, J2} x {2e-6, 0.5, 3, 7} on a fresh thread, the second call's bits must not depend on the first".into(),
         assumptions: vec![
             "tolerance: real part 16 u absolute; derivative parts 128 u M + kappa_k u sum|N^k| with kappa_k = 32, 256, 8192, 65536 for orders 1..4 (differentiated approximants)".into(),
             "reference: Miller backward recurrence / Maclaurin series in double-double, Bessel ODE series jets, audited against mpmath".into(),
         ],
-        extra: json!({"axes": axes, "abs_kappa": ABS_KAPPA}),
+        extra: json!({"axes": axes, "abs_kappa": ABS_KAPPA, "history_pairs": hist_pairs}),
         exhaustive: true,
         caps: vec![],
     };
